@@ -1,0 +1,39 @@
+//go:build verif
+
+// Contracts for govc (see /verif/DESIGN.md). Comment-only file: no executable code.
+
+package calculator
+
+// ---------------------------------------------------------------------------
+// C35: rewards never exceed the term's budget: a P-Rep's reward is the floor of its power share of
+// the P-Rep fund, split without remainder into commission and voter reward; a voter's reward from a
+// P-Rep is the floor of its accumulated-vote share of that voter reward
+// ---------------------------------------------------------------------------
+
+//@ property C35
+//@ axiom bigmul_def int : forall a int, b int :: {bigmul(a, b)} bigmul(a, b) == a * b
+// budget step: shares that are each below their proportional part stay below it when added up
+//@ lemma budget_step int : forall s int, pr int, T int, S int, a int, A int :: S > 0 && s * S <= T * A && pr * S <= T * a ==> (s + pr) * S <= T * (A + a)
+//@ lemma budget_total int : forall s int, T int, S int, A int :: S > 0 && T >= 0 && A <= S && s * S <= T * A ==> s <= T
+
+//@ spec prepOK(p) = p != nil && p.accumulatedPower != nil && p.bonded != nil && p.commission != nil && p.voterReward != nil && p.wage != nil
+//@ func (p *PRep) CalculateReward(totalPRepReward, totalAccumulatedPower, minBond, minWage)
+//@   arith int
+//@   use bigmul_def
+//@   requires prepOK(p) && totalPRepReward != nil && totalAccumulatedPower != nil && minBond != nil && minWage != nil
+//@   requires big(totalPRepReward) >= 0 && big(totalAccumulatedPower) > 0 && 0 <= big(p.accumulatedPower) && big(p.accumulatedPower) <= big(totalAccumulatedPower) && 0 <= p.commissionRate && p.commissionRate <= 10000
+//@   modifies p.commission, p.voterReward, p.wage
+//@   ensures [share] (big(p.commission) + big(p.voterReward)) * big(totalAccumulatedPower) <= big(totalPRepReward) * big(p.accumulatedPower)
+//@   ensures [floor] big(totalPRepReward) * big(p.accumulatedPower) < (big(p.commission) + big(p.voterReward) + 1) * big(totalAccumulatedPower)
+//@   ensures [nonneg] big(p.commission) >= 0 && big(p.voterReward) >= 0
+//@   ensures [commission] big(p.commission) == tdiv((big(p.commission) + big(p.voterReward)) * p.commissionRate, 10000)
+//@   ensures [wage] big(old(p.bonded)) >= big(minBond) ==> p.wage == minWage
+//@   ensures [nowage] big(old(p.bonded)) < big(minBond) ==> p.wage == old(p.wage)
+
+//@ func (p *PRep) InitAccumulated(termPeriod)
+//@   arith int
+//@   use bigmul_def
+//@   requires p != nil && p.delegated != nil && p.bonded != nil && p.power != nil
+//@   modifies p.accumulatedVoted, p.accumulatedPower
+//@   ensures [voted] p.accumulatedVoted != nil && big(p.accumulatedVoted) == (big(p.delegated) + big(p.bonded)) * termPeriod
+//@   ensures [power] p.accumulatedPower != nil && big(p.accumulatedPower) == big(p.power) * termPeriod
